@@ -187,13 +187,22 @@ def case_ip_read(p):
         rig.acc.handler = std_handler({("GET", "/characteristics"): lambda *a: (reply["code"], reply["body"], "application/hap+json")})
         rig.acc.http_style = p.get("wire")
         rig.connect()
+        kept = {}
         for statuses, shape, malformed, dup, gstatus in p["replies"]:
             n += 1
             reply["code"], reply["body"] = build_read_reply(ids, statuses, shape, malformed, dup, gstatus)
             det = {"transport": "ip", "ids": ids, "statuses": statuses, "shape": shape, "malformed": malformed, "dup": dup, "global": gstatus, "wire": p.get("wire"), "container": p.get("container")}
             try:
-                arg = {"generator": lambda: (i for i in ids), "iterator": lambda: iter(list(ids)), "map": lambda: map(tuple, [list(i) for i in ids]), "tuple": lambda: tuple(ids)}.get(p.get("container"), lambda: list(ids))()
+                cont = p.get("container") or "list"
+                if cont.startswith("kept-"):
+                    # the caller keeps ONE container and hands it in for every read (a poller's set of ids): it is the caller's, a read leaves it alone
+                    arg = kept.setdefault("c", {"kept-set": set, "kept-list": list, "kept-dict": lambda x: dict.fromkeys(x, None)}[cont](ids))
+                else:
+                    arg = {"generator": lambda: (i for i in ids), "iterator": lambda: iter(list(ids)), "map": lambda: map(tuple, [list(i) for i in ids]), "tuple": lambda: tuple(ids), "set": lambda: set(ids), "frozenset": lambda: frozenset(ids)}.get(cont, lambda: list(ids))()
                 res = rig.run(rig.pairing.get_characteristics(arg))
+                if isinstance(arg, (set, frozenset, list, tuple, dict)) and sorted(arg) != sorted(set(ids) if isinstance(arg, (set, frozenset, dict)) else ids):
+                    out.append(("ip:read-modifies-the-caller-s-container-of-ids", dict(det, now=sorted(arg))))
+                    break
             except Exception as e:  # noqa: BLE001
                 out.append((f"ip:read-raises:{type(e).__name__}:malformed={malformed}:shape={shape}", dict(det, err=str(e)[:200])))
                 if not rig.pairing.is_connected:
@@ -305,7 +314,7 @@ def plan(tier):
             if i == 0 or not quick:
                 for wire in ("chunked", "lower", "chunked-2") if quick else ("chunked", "lower", "chunked-2", "upper", "mixed", "lws", "extra-headers", "chunked-lower"):
                     work.append(("ip_read", {"ids": ids, "replies": reps[i : i + 150], "wire": wire}))
-                for cont in ("generator", "iterator", "map", "tuple"):
+                for cont in ("generator", "iterator", "map", "tuple", "set", "frozenset", "kept-set", "kept-list", "kept-dict"):
                     work.append(("ip_read", {"ids": ids, "replies": reps[i : i + 150], "container": cont}))
                 work.append(("ip_read", {"ids": ids, "replies": reps[i : i + 150], "wire": "chunked-lower", "env": dict(delivery="bytes", frames=[7])}))
                 work.append(("ip_read", {"ids": ids, "replies": reps[i : i + 150], "env": dict(delivery="3/4", frames=[48])}))
